@@ -66,6 +66,12 @@ SIG = {
                         [('CODEOPS', 'List (Bytes × String)'), ('scriptrawhex', 'Bytes'), ('has_segwit', 'Bool')], 'List Py.PyTok'),
     'tapleaf_tagged_hash': ('utils.py', 'tapleaf_tagged_hash',
                             [('hashlib_sha256', 'Bytes → Bytes'), ('OPS', 'List (String × Bytes)'), ('script', 'List Py.PyTok')], 'Bytes'),
+    # the script tree: a Script / a nested list of one- and two-element lists (Py.PyTree); recursion under a depth bound
+    'tag_hashed_merkle_root': ('utils.py', 'get_tag_hashed_merkle_root',
+                    [('hashlib_sha256', 'Bytes → Bytes'), ('OPS', 'List (String × Bytes)'), ('scripts', 'Option Py.PyTree')], 'Bytes'),
+    'calculate_tweak': ('utils.py', 'calculate_tweak',
+                        [('hashlib_sha256', 'Bytes → Bytes'), ('OPS', 'List (String × Bytes)'), ('pubkey_bytes', 'Bytes'),
+                         ('scripts', 'Py.PyScripts')], 'Int'),
     # locking-script templates (a method that only returns a stored hex string is that field) and script-hash commitments
     'p2pkh_script_pub_key': ('keys.py', 'P2pkhAddress.to_script_pub_key', [('self_hash160', 'Bytes')], 'List Py.PyTok'),
     'p2sh_script_pub_key': ('keys.py', 'P2shAddress.to_script_pub_key', [('self_hash160', 'Bytes')], 'List Py.PyTok'),
@@ -143,6 +149,11 @@ SIG = {
     'negate_privkey': ('utils.py', 'negate_privkey', [('key', 'Bytes')], 'Bytes'),
     'tweak_taproot_pubkey': ('utils.py', 'tweak_taproot_pubkey', [('internal_pubkey', 'Bytes'), ('tweak', 'Int')], 'Bytes × Bool'),
     'tweak_taproot_privkey': ('utils.py', 'tweak_taproot_privkey', [('privkey', 'Bytes'), ('tweak', 'Int')], 'Bytes'),
+    # taproot signing: the key object is its 32 secret bytes, the public-key object its 64 bytes x || y
+    'sign_taproot_input': ('keys.py', 'PrivateKey._sign_taproot_input',
+                           [('hashlib_sha256', 'Bytes → Bytes'), ('OPS', 'List (String × Bytes)'), ('self_key_bytes', 'Bytes'),
+                            ('pubkey_bytes', 'Bytes'), ('tx_digest', 'Bytes'), ('sighash', 'Int'), ('scripts', 'Py.PyScripts'),
+                            ('tweak', 'Bool')], 'Bytes'),
 }
 # callees of schnorr.py that take the SHA-256 parameter first / return bytes / return bool
 SCH_CALLS = {'tagged_hash': ('schnorr_tagged_hash', True), 'bytes_from_int': ('schnorr_bytes_from_int', False),
@@ -169,6 +180,9 @@ STR_DEFAULT = {'Int': '(0 : Int)', 'List Char': '([] : List Char)', 'List Int': 
 STR_CALLS = {'bech32_create_checksum': ('bech32_create_checksum', False), 'bech32_verify_checksum': ('bech32_verify_checksum', True),
              'convertbits': ('convertbits', True), 'bech32_decode': ('bech32_decode', False), 'bech32_encode': ('bech32_encode', False),
              'decode': ('segwit_decode', False)}
+# functions over the script tree; recursive ones get a fuel parameter (the depth of the tree + 1: proved never exhausted)
+TREEFUNS = {'tag_hashed_merkle_root': ('get_tag_hashed_merkle_root', '(Py.treeDepth scripts + 1)'), 'calculate_tweak': (None, None),
+            'sign_taproot_input': (None, None)}
 # utils.py's tweak functions: which locals are curve points; hex strings (of an even number of digits) are modelled as the bytes they denote
 TWEAKFUNS = {'negate_privkey': set(), 'tweak_taproot_pubkey': {'P', 'Q'}, 'tweak_taproot_privkey': set()}
 TWEAK_CALLS = {'point_add': 'schnorr_point_add', 'point_mul': 'schnorr_point_mul', 'full_pubkey_gen': 'schnorr_full_pubkey_gen',
@@ -198,7 +212,7 @@ WHILE_FUEL = {'convertbits': '(Int.toNat bits + 1)',
               'script_from_raw': '(List.length scriptraw + 1)'}
 # return types of translated callees that are lists (for `+` -> `++`)
 LIST_RET = {'bech32_hrp_expand', 'bech32_create_checksum'}
-STR_UTF8 = {'utils_tagged_hash', 'tapbranch_tagged_hash', 'tapleaf_tagged_hash', 'add_magic_prefix', 'taproot_digest'}
+STR_UTF8 = {'utils_tagged_hash', 'tapbranch_tagged_hash', 'tapleaf_tagged_hash', 'add_magic_prefix', 'taproot_digest', 'calculate_tweak'}
 POINT_RET = {'point_add': 'schnorr_point_add', 'point_mul': 'schnorr_point_mul', 'lift_x': 'schnorr_lift_x'}
 CALLS = {'ripemd160': 'rmd_ripemd160', 'rol': 'rmd_rol', 'fi': 'rmd_fi', '_push_integer': 'push_integer', 'vi_to_int': 'vi_to_int',
          'encode_varint': 'encode_varint', 'prepend_compact_size': 'prepend_compact_size',
@@ -343,7 +357,7 @@ class Tr:
     def __init__(s, name, file=None):
         s.name = name; s.tmp = 0; s.pre = []; s.declared = set(); s.points = set(); s.tuple5 = set()
         s.toklists = set(); s.tokvars = set(); s.optables = set(); s.byteslists = set(); s.reclists = {}; s.recvars = {}; s.revtables = set()
-        s.hoisted = set(); s.selfcopies = set(); s.scriptlists = set(); s.fmtvars = {}; s.fmtpre = {}; s.hoisting = False; s.ratvars = set(); s.optvars = set(); s.charvars = set(); s.hexvars = set(); s.tweak_point_ctx = False
+        s.hoisted = set(); s.selfcopies = set(); s.scriptlists = set(); s.fmtvars = {}; s.fmtpre = {}; s.hoisting = False; s.ratvars = set(); s.optvars = set(); s.charvars = set(); s.hexvars = set(); s.tweak_point_ctx = False; s.treevars = {}
         s.fconsts = FILE_CONSTS.get(file, {})
 
     def fail(s, n, why):
@@ -517,7 +531,62 @@ class Tr:
             return f'(some ({s.e(n.elts[0])}, {s.e(n.elts[1])}) : {POINT})'
         return None
 
+    def e_tree(s, n):
+        tv = s.treevars
+        def istree(x): return isinstance(x, ast.Name) and x.id in tv
+        if isinstance(n, ast.UnaryOp) and isinstance(n.op, ast.Not) and istree(n.operand):
+            return f'(Py.{tv[n.operand.id]}Falsy {n.operand.id})'
+        if isinstance(n, ast.Call) and isinstance(n.func, ast.Name):
+            f = n.func.id; a = n.args
+            if f == 'isinstance' and len(a) == 2 and istree(a[0]) and isinstance(a[1], ast.Name) and a[1].id in ('list', 'bytes'):
+                return f'(Py.{tv[a[0].id]}Is{a[1].id.capitalize()} {a[0].id})'
+            if f == 'len' and len(a) == 1 and istree(a[0]) and tv[a[0].id] == 'tree': return s.eff(f'Py.treeLen {a[0].id}')
+            if f == 'tapleaf_tagged_hash' and len(a) == 1 and istree(a[0]) and tv[a[0].id] == 'tree':
+                t = s.eff(f'Py.treeLeafToks {a[0].id}')
+                return s.eff(f'tapleaf_tagged_hash hashlib_sha256 OPS {t}')
+            if f == 'tapbranch_tagged_hash' and len(a) == 2:
+                return s.eff(f'tapbranch_tagged_hash hashlib_sha256 {s.e(a[0])} {s.e(a[1])}')
+            if f == 'get_tag_hashed_merkle_root' and len(a) == 1:
+                if s.name == 'tag_hashed_merkle_root':
+                    if not (isinstance(a[0], ast.Subscript) and istree(a[0].value)): s.fail(n, 'recursive call argument')
+                    return s.eff(f'tag_hashed_merkle_root_fuel fuel hashlib_sha256 OPS {s.e(a[0])}')
+                if istree(a[0]) and tv[a[0].id] == 'scripts':
+                    return s.eff(f'tag_hashed_merkle_root hashlib_sha256 OPS (Py.scriptsTree {a[0].id})')
+            if f == 'b_to_i' and len(a) == 1: return f'(Py.fromBytes {s.e(a[0])} Py.Order.big)'
+            def is_self_key(x):
+                return (isinstance(x, ast.Call) and isinstance(x.func, ast.Attribute) and x.func.attr == 'to_string' and not x.args
+                        and isinstance(x.func.value, ast.Attribute) and x.func.value.attr == 'key'
+                        and isinstance(x.func.value.value, ast.Name) and x.func.value.value.id == 'self')
+            def is_self_pub(x):
+                return (isinstance(x, ast.Call) and isinstance(x.func, ast.Attribute) and x.func.attr == 'get_public_key' and not x.args
+                        and isinstance(x.func.value, ast.Name) and x.func.value.id == 'self')
+            if s.name == 'sign_taproot_input':
+                if f == 'calculate_tweak' and len(a) == 2 and is_self_pub(a[0]) and istree(a[1]):
+                    return s.eff(f'calculate_tweak hashlib_sha256 OPS pubkey_bytes {a[1].id}')
+                if f == 'tweak_taproot_privkey' and len(a) == 2 and is_self_key(a[0]):
+                    return s.eff(f'tweak_taproot_privkey self_key_bytes {s.e(a[1])}')
+                if f == 'schnorr_sign' and len(a) == 3:
+                    return s.eff('schnorr_sign hashlib_sha256 ' + ' '.join(s.e(x) for x in a))
+        if (s.name == 'sign_taproot_input' and isinstance(n, ast.Call) and isinstance(n.func, ast.Attribute) and n.func.attr == 'to_string'
+                and not n.args and isinstance(n.func.value, ast.Attribute) and n.func.value.attr == 'key'
+                and isinstance(n.func.value.value, ast.Name) and n.func.value.value.id == 'self'):
+            return 'self_key_bytes'
+        if isinstance(n, ast.Subscript) and istree(n.value) and tv[n.value.id] == 'tree' and not isinstance(n.slice, ast.Slice):
+            return s.eff(f'Py.treeChild {n.value.id} {s.e(n.slice)}')
+        if isinstance(n, ast.BinOp) and isinstance(n.op, ast.Add) and istree(n.right) and tv[n.right.id] == 'scripts':
+            return f'({s.e(n.left)} ++ {s.eff("Py.scriptsBytes " + n.right.id)})'
+        if (isinstance(n, ast.Subscript) and isinstance(n.value, ast.Call) and isinstance(n.value.func, ast.Attribute)
+                and n.value.func.attr == 'to_bytes' and isinstance(n.value.func.value, ast.Name) and n.value.func.value.id == 'pubkey'
+                and 'pubkey_bytes' in s.params and isinstance(n.slice, ast.Slice)):
+            lo = s.e(n.slice.lower) if n.slice.lower else '(0 : Int)'
+            hi = s.e(n.slice.upper) if n.slice.upper else 'Py.slEnd'
+            return f'(Py.slice pubkey_bytes {lo} {hi})'
+        return None
+
     def e(s, n):
+        if s.name in TREEFUNS:
+            r = s.e_tree(n)
+            if r is not None: return r
         if s.name in TWEAKFUNS:
             r = s.e_tweak(n)
             if r is not None: return r
@@ -851,6 +920,8 @@ class Tr:
             nm = f.attr if isinstance(f, ast.Attribute) else getattr(f, 'id', '')
             if nm == 'hex' and s.name in PARSERS and isinstance(f, ast.Attribute): return s.isbytes(f.value)
             if nm == 'full_pubkey_gen' and s.name in TWEAKFUNS: return True
+            if s.name in TREEFUNS and nm in ('get_tag_hashed_merkle_root', 'tapleaf_tagged_hash', 'tapbranch_tagged_hash', 'tagged_hash',
+                                             'tweak_taproot_privkey', 'schnorr_sign', 'to_string'): return True
             return nm in ('to_bytes', 'pack', 'bytes', 'encode_varint', 'h_to_b', 'b_to_h', '_op_push_data',
                           'prepend_compact_size', 'digest', 'encode', 'ripemd160') or nm in LIST_RET or nm in SCH_BYTES
         if isinstance(n, ast.Subscript) and s.is_unpack_from(n.value) and isinstance(n.slice, ast.Constant):
@@ -1376,6 +1447,7 @@ class Tr:
         s.intlists = {p for p, t in params if t == 'List Int'}; s.charlists = {p for p, t in params if t == 'List Char'}
         s.declared = {p for p, _ in params}; s.selfalias = set(); s.params = {p for p, _ in params}
         s.fnode = node
+        s.treevars = {p_: ('tree' if t_ == 'Option Py.PyTree' else 'scripts') for p_, t_ in params if t_ in ('Option Py.PyTree', 'Py.PyScripts')}
         s.scriptlists = {p for p, t in params if t == 'List (List Py.PyTok)'}
         s.points = {p for p, t in params if t == 'Point'}
         s.toklists = {p for p, t in params if t == 'List Py.PyTok'}; s.tokvars = set()
@@ -1493,6 +1565,13 @@ class Tr:
         if not isinstance(last, (ast.Return, ast.Raise)):
             body.append('  throw PyErr.fellThrough' if not ret.startswith('Option') and ret != 'Unit'
                         else ('  return none' if ret != 'Unit' else '  return ()'))
+        if s.name in TREEFUNS and TREEFUNS[s.name][0] is not None:
+            # a recursive function: `fuel` bounds the recursion depth (exhausting it raises, like a bounded `while`)
+            inner = '\n'.join('    ' + l[2:] if l.startswith('  ') else l for l in body)
+            args = ' '.join(p_ for p_, _ in params)
+            return (f'def {s.name}_fuel (fuel : Nat) {ps} : Except PyErr ({ret}) :=\n  match fuel with\n'
+                    f'  | 0 => throw PyErr.fellThrough\n  | fuel+1 => do\n' + inner + '\n\n'
+                    f'def {s.name} {ps} : Except PyErr ({ret}) :=\n  {s.name}_fuel {TREEFUNS[s.name][1]} {args}\n')
         return f'def {s.name} {ps} : Except PyErr ({ret}) := do\n' + '\n'.join(body) + '\n'
 
 
